@@ -78,7 +78,7 @@ pub fn run_check(context: &CheckContext) -> CheckOutcome {
         outcome.reports.push(report);
         if let Some(violation) = violation { outcome.violations.push(violation); }
     }
-    if outcome.violations.is_empty() && matches!(context.property.as_str(), "C01" | "C04" | "C05" | "C07" | "C09" | "C10" | "C11" | "C16" | "C17") { return run_conc_check(context, outcome); }
+    if outcome.violations.is_empty() && matches!(context.property.as_str(), "C01" | "C03" | "C04" | "C05" | "C07" | "C09" | "C10" | "C11" | "C16" | "C17") { return run_conc_check(context, outcome); }
     outcome
 }
 
@@ -179,6 +179,8 @@ pub fn conc_campaigns(property: &str) -> Vec<ConcCampaign> {
         "C02x" => vec![],
         "C07" => vec![ConcCampaign { name: "conc-put-contention", profile: PutContention, cases_quick: 600, cases_thorough: 8000, nt: |s| s.puts_on_settled_keys >= 3 && s.threads >= 3,
             rule: "keys are never deleted, never given a TTL and the cache is far from full, so once a key's first write is acknowledged it stays readable; 3-8 threads then race puts (all four variants), in-place upserts, reads and held get_ref guards on those keys with 2 store shards; every such put must be refused with KeyAlreadyExists and no read may ever return its value; non-trivial = >= 3 puts hit an already settled key from >= 3 threads" }],
+        "C03" => vec![ConcCampaign { name: "conc-tight-fit", profile: TightFit, cases_quick: 600, cases_thorough: 8000, nt: |s| s.owner_reincarnations >= 2 && s.swept_during_run && s.threads >= 2,
+            rule: "the cache weight equals the combined (fixed) put weights of the whole key universe, so everything always fits; thread 0 works sequentially (each write awaited) on two keys nobody else touches, without TTL, while 1-5 other threads churn the other keys with TTL puts, upserts, deletes and a clock thread drives sweeps, with delays in the weight-accounting critical sections; nothing may be refused for space and the owner must always read its latest acknowledged value; non-trivial = the owner's keys went through >= 2 accepted puts AND the sweeper collected keys during the run" }],
         "C09" => vec![ConcCampaign { name: "conc-expiry", profile: General, cases_quick: 500, cases_thorough: 6000, nt: |s| s.ttl_writes >= 1 && s.sweeps_during_run && s.read_after_completed_overwrite,
             rule: "generated concurrent programs with TTL writes and a clock thread; history checker: a returned value whose write carried a TTL must not be served once the clock is certainly past the latest possible deadline of that write (clock values bracketed by stamps); non-trivial = an accepted TTL write, a clock thread, and a value-returning read after a completed write" }],
         "C10" => vec![ConcCampaign { name: "conc-sweeps", profile: EvictVsSweep, cases_quick: 400, cases_thorough: 6000, nt: |s| s.rotated && s.swept_during_run && s.ttl_writes >= 1,
